@@ -3494,6 +3494,21 @@ theorem wrapper_remove_ok_refines (cs : List Cache) (seq : Nat) (b e : Int)
       | shared => simp at hok
       | notsup => simp at hok
 
+/-- `SetCausal` on every wrapped cache changes no abstract state -/
+theorem wrapper_setCausal_abs (cs : List Cache) (ex : List Nat) : (wSetCausal cs ex).map abs = cs.map abs := by
+  simp [wSetCausal, List.map_map, Function.comp_def, setCausal_abs]
+
+/-- `WrapperCache.CanResume` approves only if every wrapped sliding-window cache holds the complete window
+    (repaired `CanResume`; full-attention caches always approve) -/
+theorem wrapper_canResume_sound (cs : List Cache) (seq : Nat) (pos : Int) (h : wCanResume cs seq pos = true)
+    (c : Cache) (hc : c ∈ cs) (w : Int) (hinv : Inv c) (hw : c.window = some w) (hfr : c.v.fixResume = true)
+    (hnd : (seqPositions (abs c) seq).Nodup) (p : Int) (h1 : max 0 (pos - w) ≤ p) (h2 : p < pos) :
+    ∃ e ∈ abs c, seq ∈ e.seqs ∧ e.pos = p := by
+  have hcr : canResume c seq pos = true := by
+    unfold wCanResume at h
+    exact List.all_eq_true.mp h c hc
+  exact canResume_sound c seq pos w hinv hw hfr hnd hcr p h1 h2
+
 /-! ### Witnesses of the defects the model shares with the code -/
 
 def fwd (c : Cache) (b : List (Tok × Nat)) : Cache :=
